@@ -646,9 +646,17 @@ func main() {
 					classFails[class] = append(classFails[class], idFail{key, hex.EncodeToString(data), c.Expect, -1})
 					return
 				}
-				// rejecting a non-preferred encoding never reinterprets it as another
-				// variant: allowed, counted
+				// "This holds whether the list length is encoded minimally, non-minimally or as an
+				// indefinite-length list": an admissible header form that is refused does not produce
+				// the variant its first element names (DESIGN C03, reading decision). Reported under
+				// its own class so that it can be told apart from a wrong variant.
 				idRejected++
+				rc := class + ":refused"
+				if _, ok := classSize[rc]; !ok {
+					classOrder = append(classOrder, rc)
+				}
+				classSize[rc] = classSize[class]
+				classFails[rc] = append(classFails[rc], idFail{key, hex.EncodeToString(data), c.Expect, -1})
 			case c.Expect >= 0 && got != c.Expect:
 				classFails[class] = append(classFails[class], idFail{key, hex.EncodeToString(data), c.Expect, got})
 			case c.Expect >= 0:
@@ -677,6 +685,8 @@ func main() {
 		var desc string
 		if f.Spec >= 0 && f.Got >= 0 {
 			desc = fmt.Sprintf("DecodeIdFromList(%s) = %d, the first element is %d", f.Bytes, f.Got, f.Spec)
+		} else if f.Spec >= 0 && strings.HasSuffix(class, ":refused") {
+			desc = fmt.Sprintf("DecodeIdFromList(%s) refuses an admissible encoding of a list whose first element is %d", f.Bytes, f.Spec)
 		} else if f.Spec >= 0 {
 			desc = fmt.Sprintf("DecodeIdFromList(%s) fails on the canonical encoding of id %d", f.Bytes, f.Spec)
 		} else {
@@ -729,9 +739,9 @@ func main() {
 		}
 		// one disagreement per (decoder, variant); the key names every header form
 		// under which the variant changes
-		var badForms []string
+		var badForms, refusedForms []string
 		var badReplays []map[string]any
-		firstDesc := ""
+		firstDesc, firstRefused := "", ""
 		for _, h := range hs {
 			hdr, trl := toBytes(rep, h.Hdr), toBytes(rep, h.Trl)
 			re := append(append(append([]byte{}, hdr...), v.inner[1:]...), trl...)
@@ -747,6 +757,11 @@ func main() {
 				if err != nil {
 					rejected++
 					rejectedKeys = append(rejectedKeys, key)
+					refusedForms = append(refusedForms, h.Af)
+					if firstRefused == "" {
+						firstRefused = fmt.Sprintf("%s %s: %x (%s array header) is refused (%v); the minimal form %x decodes as %q",
+							v.dec, v.name, input, h.Af, err, wrap(v.inner), base)
+					}
 					return
 				}
 				if got != base {
@@ -768,6 +783,12 @@ func main() {
 			rep.Disagree(key, firstDesc, map[string]any{"decoder": v.dec, "variant": v.name,
 				"minimal_hex": hex.EncodeToString(wrap(v.inner)), "minimal_decodes_as": base, "reheaded": badReplays})
 		}
+		if len(refusedForms) > 0 {
+			sort.Strings(refusedForms)
+			key := fmt.Sprintf("rehead:dec=%s:var=%s:refused=%s", v.dec, v.name, strings.Join(refusedForms, "+"))
+			rep.Disagree(key, firstRefused, map[string]any{"decoder": v.dec, "variant": v.name,
+				"minimal_hex": hex.EncodeToString(wrap(v.inner)), "minimal_decodes_as": base, "refused_forms": refusedForms})
+		}
 		if v.dec == "native_script" && v.name == "all" {
 			rep.Sample(map[string]any{"decoder": v.dec, "variant": v.name, "minimal": hex.EncodeToString(v.inner), "decodes_as": base})
 		}
@@ -780,6 +801,6 @@ func main() {
 		rejectedKeys = rejectedKeys[:12]
 	}
 	rep.Extra["rehead_rejected_examples"] = rejectedKeys
-	rep.Extra["note"] = "a decode error on a non-minimal/indefinite header is accepted (the property only forbids a different variant)"
+	rep.Extra["note"] = "every admissible header form (minimal, 1/2/4/8-byte non-minimal, indefinite) must decode to the variant the first element names; a refusal is reported under a :refused / refused= key"
 	rep.Finish()
 }
